@@ -110,6 +110,13 @@ class TranslatorBase(object):
         if lv.index is None and lv.name in self.pins:
             raise ExtractionError('assignment to pinned scalar %s' % lv.name)
         self.emit(Assign(lv, e))
+        if self.opt.get('finite_ghosts') and lv.ty == REAL and e.op in ('var', 'idx'):
+            # a copied double keeps its finiteness bit
+            src = E.var(e.args[0] + '__fin', BOOL) if e.op == 'var' else E.idx(e.args[0] + '__fin', e.args[1], BOOL)
+            dst = LV(lv.name + '__fin', BOOL, lv.index)
+            (self.globals_s if e.op == 'var' else self.globals_a)[e.args[0] + '__fin'] = BOOL
+            (self.globals_s if lv.index is None else self.globals_a)[lv.name + '__fin'] = BOOL
+            self.emit(Assign(dst, src))
 
     def obligation(self, cond, label, kind):
         cond = implies(self.guard, cond)
